@@ -60,6 +60,9 @@ CLAIMS = {
  'C19': dict(tech='integer-overflow discipline: TermFlow term decomposition at size sinks with path no-overflow facts, a justified invariant table, and a reserve postcondition proof',
    text='Decides for every function (standalone, symbolic arguments) that each size reaching a sink — unchecked Layout construction, arena allocation layouts, set_len / len / cap stores, from_raw_parts lengths, copy counts, reserve amounts — contains no unchecked add/mul/shl/sum that is not justified by a checked-operation success fact on that path, by a preceding reserve on the same container, or by a tabled invariant; public arena methods allocate only with validated layouts; the RawVec reserve family\'s successful returns entail used + extra <= capacity with wrapping arithmetic kept apart from checked arithmetic; the bumping function keeps the pointer inside the chunk for every Layout. 32-bit alloc_guard behaviour is outside what can be decided here.',
    ref='DESIGN.md section 4 C19'),
+ 'C02': dict(tech='TermFlow term identities (extent/index agreement), copy-discipline proofs, gating of finger-raising stores',
+   text='Decides the structural part: for the seven slice methods the element count reserved, the count initialised (copy count or loop bound) and the count returned are one term, writes go to reserved_base + i*size_of::<T>() with i exactly the index given to the single callback whose result is the value written (or index/value of one enumerate item); value methods write f() once at the reserved pointer; grow/shrink/realloc copy min(old,new) bytes and never copy_nonoverlapping without a disjointness proof; the default realloc copies min(old,new); every store that raises a bump finger is gated by is_last_allocation and bounded by the released block, so no live block is handed out again. Read-back equality of contents as such is a runtime-value statement and is not decided.',
+   ref='DESIGN.md section 4 C02'),
 }
 
 NOT_YET = 'check not built yet (build in progress, see DESIGN.md section 9)'
